@@ -144,6 +144,7 @@ func (mo *Monitor) AfterBlock(b *forge.Block) error {
 	h := b.Height
 	e := mo.E
 	mo.RS.tip = h - 1
+	waiting := append([]rules.Held{}, mo.M.Pending...)
 	x := mo.M.Step(mo.Prev, b, mo.RS, node.BurnRCD)
 	mo.sigPrefix = ""
 	if x.OutOfBand {
@@ -165,6 +166,39 @@ func (mo *Monitor) AfterBlock(b *forge.Block) error {
 	r.Count("blocks_monitored", 1)
 	base := func() map[string]interface{} {
 		return map[string]interface{}{"height": h, "era": er, "notes": x.Notes}
+	}
+	if len(b.OPR) == 0 && len(b.SPR) == 0 && h >= e.V20Dev && h%144 == 0 {
+		r.Count("payout_heights_without_opr_and_spr_entries", 1)
+	}
+	for _, en := range b.SPR {
+		if ext := en.ExtIDs(); len(ext) >= 2 && len(ext[1]) != 32 {
+			r.Count("spr_records_with_odd_length_staker_id", 1)
+		}
+	}
+	// ---- a block without rates executes no pending conversion (C12, C07): everything that was
+	// waiting before the block must still be recorded as pending after it
+	waitingAddrs := map[factom.FAAddress]bool{}
+	if !x.Rated && x.Undetermined[factom.FAAddress{}] == "" && !x.OutOfBand {
+		if len(waiting) > 0 {
+			r.Count("unrated_blocks_with_conversions_waiting", 1)
+			if h >= e.V202 && h%144 == 0 {
+				r.Count("unrated_snapshot_blocks_from_v202_with_conversions_waiting", 1)
+			}
+		}
+		for _, p := range waiting {
+			waitingAddrs[p.Batch.Transactions[0].Input.Address] = true
+			var executed int64
+			if err := mo.DB.QueryRow("SELECT executed FROM pn_history_txbatch WHERE entry_hash = ?", p.Entry.Hash[:]).Scan(&executed); err != nil {
+				continue
+			}
+			r.Count("waiting_batches_checked_in_unrated_blocks", 1)
+			if executed != 0 {
+				c := base()
+				c["entry"], c["held_since"], c["observed_status"] = p.Entry.Hash.String(), p.Height, executed
+				mo.add([]string{"C12", "C07", "C17"}, fmt.Sprintf("held-batch-considered-in-unrated-block observed=%s era=%s", codeClass(executed, h), er),
+					fmt.Sprintf("block %d (%s) has no winners and records no rates, but batch %s held since %d now has status %d", h, er, p.Entry.Hash, p.Height, executed), c)
+			}
+		}
 	}
 	// ---- C03: no negative balance
 	for _, n := range neg {
@@ -230,6 +264,10 @@ func (mo *Monitor) AfterBlock(b *forge.Block) error {
 				}
 				if convAddrs[a] {
 					props["C13"] = true
+					props["C07"] = true
+				}
+				if waitingAddrs[a] {
+					props["C12"] = true
 					props["C07"] = true
 				}
 				if mo.sigPrefix != "" {
